@@ -291,7 +291,9 @@ class Check(BaseCheck):
                 'chains_total': len(pg.all_chains()),
                 'inputs': len(self.inputs), 'caller_contexts': self.ctx_texts,
                 'pipelines_len1': 'about 15-20 per program (depends on the number of call sites)',
-                'pipelines_len2': len(pair_pipelines(self.mono_ctxs))}
+                'pipelines_len2': len(pair_pipelines(self.mono_ctxs)),
+                'pipelines_len2_applied_to': 'all programs' if self.tier == 'thorough' else
+                'A0 pairs and chains (A1 pairs: length-1 pipelines only)'}
 
     def shards(self):
         return [(k, self.nshards) for k in range(self.nshards)]
@@ -355,7 +357,12 @@ class Check(BaseCheck):
             except Exception as e:  # noqa: BLE001
                 r.notes.append(f'sites(inline) raised {type(e).__name__} on position {shape["position"]}')
                 nsites = 1
-            pipelines = single_pipelines(nsites, desc[0] == 'chain', self.mono_ctxs) + pair_pipelines(self.mono_ctxs)
+            pipelines = single_pipelines(nsites, desc[0] == 'chain', self.mono_ctxs)
+            if self.tier == 'thorough' or not (desc[0] == 'pair' and desc[4] == 'A1'):
+                # quick: the A1 pairs get the length-1 pipelines only
+                pipelines = pipelines + pair_pipelines(self.mono_ctxs)
+            else:
+                r.count('programs_without_length2_pipelines')
 
         failed_steps: set[str] = set()
         for pipeline in pipelines:
@@ -375,7 +382,8 @@ class Check(BaseCheck):
 
     def run_pipeline(self, r, desc, shape, src, mod, f, ftext, pipeline, ctxs, inputs, orig) -> bool:
         name = ' ; '.join(step_name(s) for s in pipeline)
-        passes = '+'.join(s['op'] for s in pipeline)
+        ops = [s['op'] for s in pipeline]
+        passes = '+'.join(o for i, o in enumerate(ops) if i == 0 or o != ops[i - 1])     # inline+inline -> inline
         r.count('pipelines')
         try:
             t = apply_pipeline(pipeline, f, mod)
